@@ -5,6 +5,7 @@ package main
 
 import (
 	"fmt"
+	"sort"
 	"strings"
 	"time"
 	"unicode"
@@ -130,6 +131,27 @@ var ciTemplates = []string{
 	`\bab\b`, `a\Bb`, `[a-c][e-z]`, `[eéä]+b`, `z[^é]`, `[^a-c][^z]`,
 }
 
+// "everything but a short run" classes: the run's letters have their case partners inside the class, so under
+// IgnoreCase all of these are the whole universe (or its complement), however the endpoint next to the run is cased
+var ciEndpointSpellings = map[string][]string{
+	`[\x00-\x60b-\x{10FFFF}]`:              {`[\x00-\x60B-\x{10FFFF}]`},
+	`[\x00-jl-\x{10FFFF}]x`:                {`[\x00-jL-\x{10FFFF}]x`},
+	`[\x00-дж-\x{10FFFF}]`:                 {`[\x00-дЖ-\x{10FFFF}]`},
+	`[^\x00-\x60b-\x{10FFFF}]?x`:           {`[^\x00-\x60B-\x{10FFFF}]?x`},
+	`[a-z-[\x00-\x60c-\x{10FFFF}]]?y`:      {`[a-z-[\x00-\x60C-\x{10FFFF}]]?y`},
+	`[\x00-\x{042F}\x{0431}-\x{10FFFF}]z?`: {`[\x00-\x{042F}\x{0411}-\x{10FFFF}]z?`},
+}
+
+// the letters of the excluded run, for directed inputs
+var ciEndpointRun = map[string]string{
+	`[\x00-\x60b-\x{10FFFF}]`:              "aA",
+	`[\x00-jl-\x{10FFFF}]x`:                "kK",
+	`[\x00-дж-\x{10FFFF}]`:                 "еЕ",
+	`[^\x00-\x60b-\x{10FFFF}]?x`:           "aA",
+	`[a-z-[\x00-\x60c-\x{10FFFF}]]?y`:      "abAB",
+	`[\x00-\x{042F}\x{0431}-\x{10FFFF}]z?`: "аА",
+}
+
 func legCase(c *Ctx) {
 	c.Rule("patterns compiled with IgnoreCase (option or leading (?i)): templates with literals, classes, negated classes, class subtractions, backreferences and prefix-search shapes over ASCII/Latin-1/Greek/Cyrillic letters with simple upper/lower pairs, plus random ASTs over those letters; x both directions; inputs over the letters (both cases), digits and punctuation; metamorphic checks: result spans are unchanged when input letters change case (random subset and all), and when pattern literals/class members/range endpoints change case; string and rune entry points; non-trivial = some match exists (distinct by pattern,input)")
 	type cp struct {
@@ -139,6 +161,14 @@ func legCase(c *Ctx) {
 	var pats []cp
 	for _, t := range ciTemplates {
 		pats = append(pats, cp{t, false}, cp{t, true})
+	}
+	var spelled []string
+	for t := range ciEndpointSpellings {
+		spelled = append(spelled, t)
+	}
+	sort.Strings(spelled) // (map order must not leak into the order of the random draws)
+	for _, t := range spelled {
+		pats = append(pats, cp{t, false})
 	}
 	for _, t := range []string{`\1(a)`, `\1b(a)`, `\k<n>(?<n>[a-c])`, `\1+(é)`} {
 		pats = append(pats, cp{t, true}) // backreference evaluated right-to-left
@@ -184,6 +214,19 @@ func legCase(c *Ctx) {
 			flipped = append(flipped, fre)
 			fpats = append(fpats, fp)
 		}
+		// spellings that differ in the case of a range endpoint whose other endpoint is not a letter: the flipper leaves
+		// such ranges alone (in general the set changes), these particular ones denote the same set under IgnoreCase
+		for _, fp := range ciEndpointSpellings[p.pat] {
+			fre, err := regexp2.Compile(fp, opts)
+			if err != nil {
+				c.Add(&Case{Desc: fmt.Sprintf("pattern %q spelled %q", p.pat, fp), Direct: "case-flipped pattern does not compile: " + err.Error()})
+				continue
+			}
+			fre.MatchTimeout = 300 * time.Millisecond
+			flipped = append(flipped, fre)
+			fpats = append(fpats, fp)
+			hits["endpoint-spelling"]++
+		}
 		if strings.Contains(p.pat, "-[") {
 			hits["subtraction"]++
 		}
@@ -196,7 +239,10 @@ func legCase(c *Ctx) {
 		}
 		for k := 0; k < nIn; k++ {
 			in := randString(c.Rng, alphabet, 7)
-			if k%3 == 0 {
+			if run := []rune(ciEndpointRun[p.pat]); len(run) > 0 && k < 8 {
+				// texts that begin with (or consist of) a letter of the excluded run, followed by what the template needs
+				in = append([]rune{run[k%len(run)]}, []rune(Pick(c.Rng, []string{"", "x", "y", "z", "xx"}))...)
+			} else if k%3 == 0 {
 				// short inputs made only of the pattern's own letters in both cases
 				var ls []rune
 				for _, ch := range p.pat {
@@ -250,4 +296,5 @@ func legCase(c *Ctx) {
 	}
 	c.Gate("class subtraction patterns exercised", hits["subtraction"] > 0)
 	c.Gate("backreference patterns exercised", hits["backref"] > 0)
+	c.Gate("endpoint spellings exercised", hits["endpoint-spelling"] >= 6)
 }
